@@ -104,8 +104,39 @@ func (c *Ctx) hashSingleImplementation() {
 		reach := c.reachable([]*ssa.Function{f}, map[string]bool{"boc": true})
 		c.check(reach[impl], R, n+" reaches newImmutableCell", f.Pos(), "the one hashing implementation is on the call path", n+" no longer computes its hash through newImmutableCell (a second implementation could diverge)")
 	}
-	// Cell.hash returns imc.Hash(maxLevel)
-	if f := c.mustFn(R, "boc", "Cell.hash"); f != nil {
+	// Cell.hash returns imc.Hash(maxLevel). When the unexported helper was inlined into its callers, each public
+	// entry point that builds the immutable cell itself is held to the same two clauses.
+	hashFns := []*ssa.Function{}
+	if f := c.fn("boc", "Cell.hash"); f != nil {
+		hashFns = append(hashFns, f)
+	} else {
+		for _, n := range []string{"Cell.Hash", "Cell.Hash256", "Cell.HashString", "Hasher.Hash"} {
+			if f := c.fn("boc", n); f != nil && len(callsTo(f, bocPath+".newImmutableCell")) > 0 {
+				hashFns = append(hashFns, f)
+			}
+		}
+		if len(hashFns) == 0 {
+			c.mustFn(R, "boc", "Cell.hash")
+		}
+	}
+	for fi, f := range hashFns {
+		if fi > 0 {
+			// the ledger keys below name Cell.hash; further inlined copies are checked but share the verdict
+			sh := c.shadow()
+			sh.singleHashBody(R, f)
+			for _, o := range sh.Obls {
+				if o.Status == "violation" {
+					c.bad(R, fnName(f)+": "+strings.TrimPrefix(o.Key, R+"|"), f.Pos(), o.What)
+				}
+			}
+			continue
+		}
+		c.singleHashBody(R, f)
+	}
+}
+
+func (c *Ctx) singleHashBody(R string, f *ssa.Function) {
+	{
 		okv := false
 		for _, cl := range callsTo(f, bocPath+".immutableCell.Hash") {
 			if k, ok := constInt(cl.Call.Args[1]); ok && k == 3 {
@@ -118,7 +149,7 @@ func (c *Ctx) hashSingleImplementation() {
 		okAll, nRet := true, 0
 		for _, sp := range successPoints(f, 1) {
 			nRet++
-			if !derivesFrom(retVal(sp.Ret, 0), callResult(bocPath+".immutableCell.Hash"), false) {
+			if !derivesFrom(retVal(sp.Ret, 0), callResult(bocPath+".immutableCell.Hash"), true) {
 				okAll = false
 			}
 		}
@@ -157,7 +188,7 @@ func (c *Ctx) hashPreimage() {
 	}
 	// the rule's own named primitives are not entered; every other unexported helper of the package is read
 	// as if inlined (E19), so extracting a step of the loop into a helper changes nothing
-	prims := map[string]bool{"newImmutableCell": true, "d1": true, "d2": true, "bocReprWithoutRefs": true, "Hash": true, "Depth": true, "Apply": true, "IsSignificant": true, "HashIndex": true, "HashesCount": true, "Level": true}
+	prims := map[string]bool{"newImmutableCell": true, "d1": true, "d2": true, "descriptors": true, "descriptorBytes": true, "bocReprWithoutRefs": true, "Hash": true, "Depth": true, "Apply": true, "IsSignificant": true, "HashIndex": true, "HashesCount": true, "Level": true}
 	stop := func(g *ssa.Function) bool { return prims[g.Name()] }
 	view := c.inlineView(f, 2, stop)
 	callsQ := func(q string) []vinstr {
@@ -176,7 +207,7 @@ func (c *Ctx) hashPreimage() {
 	// every d1(...) and bocReprWithoutRefs(...) call takes mask.Apply(i)
 	n := 0
 	okMask := true
-	for _, q := range []string{bocPath + ".d1", bocPath + ".Cell.bocReprWithoutRefs"} {
+	for _, q := range []string{c.qn("boc", "d1"), bocPath + ".Cell.bocReprWithoutRefs"} {
 		for _, vi := range callsQ(q) {
 			n++
 			if !fromApply(argOf(vi, 1)) {
@@ -197,7 +228,7 @@ func (c *Ctx) hashPreimage() {
 		switch {
 		case derivesFrom(a, callResult(bocPath+".Cell.bocReprWithoutRefs"), false):
 			return "repr"
-		case derivesFrom(a, callResult(bocPath+".d1"), false):
+		case derivesFrom(a, callResult(c.qn("boc", "d1")), false):
 			return "d1d2"
 		case derivesFrom(a, callResult(bocPath+".immutableCell.Hash"), false):
 			return "childhash"
@@ -574,6 +605,18 @@ func (c *Ctx) tailZero() {
 	// the consumer: confirm the reliance exists (otherwise the rule is moot and must be revisited)
 	if f := c.mustFn(R, "boc", "Cell.bocReprWithoutRefs"); f != nil {
 		uses := len(callsTo(f, modPath+"/boc.Cell.getBuffer")) == 1
+		if !uses {
+			// the one-line getter inlined: a copy whose source is the raw buffer field itself
+			allInstrs(f, func(_ *ssa.BasicBlock, in ssa.Instruction) {
+				if cl, ok := in.(*ssa.Call); ok {
+					if bi, ok := cl.Call.Value.(*ssa.Builtin); ok && bi.Name() == "copy" && len(cl.Call.Args) == 2 {
+						if derivesFrom(cl.Call.Args[1], fieldLoadOf("boc.BitString.buf"), false) || derivesFrom(cl.Call.Args[1], callResult(bocPath+".BitString.Buffer"), false) {
+							uses = true
+						}
+					}
+				}
+			})
+		}
 		c.check(uses, R, "representation copies the raw buffer (relies on a zero tail)", f.Pos(), "copy(res[2:], c.getBuffer()) | tag bit", "bocReprWithoutRefs no longer copies the raw buffer: the zero-tail invariant rule must be revisited")
 	}
 	isBufField := func(v ssa.Value) bool {
